@@ -58,6 +58,8 @@ func init() {
 			c.ruleWriteDirtyBatch()
 			c.ruleChildPersist()
 			c.min("R-CHILDPERSIST", 1)
+			c.ruleFinaliseEachBlock()
+			c.min("R-FINALISE/eachblock", 1)
 			c.min("R-ORDER", 10)
 			c.min("R-ORDER/batch", 3)
 		})
@@ -74,6 +76,8 @@ func init() {
 			c.min("R-FINALISE", 6)
 			c.ruleFinaliseSetID()
 			c.min("R-FINALISE/setid", 2)
+			c.ruleFinaliseEachBlock()
+			c.min("R-FINALISE/eachblock", 1)
 			c.ruleStoreAfterAdd()
 		})
 }
